@@ -42,6 +42,10 @@ PROBES = [
     ('<div tal:switch="a"><p tal:case="1">one</p><p tal:case="default">dflt</p></div><i tal:repeat="x (1, 2)" tal:attributes="class x">${repeat.x.number}</i>', {}),
     ('<p tal:on-error="string:E ${error.type.__name__}">${1/0}</p><a tal:define="global g a" tal:omit-tag="">${g}</a>${g}', {}),
     ('<input checked="${a}" value="${a}" tal:attributes="disabled a == 2" /><tal:block content="structure: \'<b>\'" />', {}),
+    ('<a title="T" alt="A" i18n:attributes="title; alt alt-id" tal:attributes="d" class="c" id="i">k</a>', {}),
+    ('<ul><li tal:repeat="k sorted(d)" tal:attributes="class repeat.k.odd and \'o\' or None">${k}=${d[k]}</li>'
+     '<li tal:repeat="(k, v) sorted(d.items())">${k}:${v}</li></ul>'
+     '<p tal:define="x a; global y a" tal:omit-tag="a == 2">${x}${y}</p>${y}${exists: x}', {}),
 ]
 
 
@@ -78,7 +82,7 @@ def _render_probes(PageTemplate, PageTextTemplate):
     outs = []
     for src, opts in PROBES:
         try:
-            outs.append(PageTemplate(src, translate=_tr, **opts)(a=1))
+            outs.append(PageTemplate(src, translate=_tr, **opts)(a=1, d={"id": "I", "lang": "en"}))
         except Exception as e:   # noqa
             outs.append("EXC %s: %s" % (type(e).__name__, str(e).splitlines()[:1]))
     try:
@@ -97,6 +101,7 @@ def run(ctx, label):
     base = _render_probes(PageTemplate, PageTextTemplate)
     n = len(base)
     for c in CONTEXTS:
+        rejected = []
         for e in ERRORS:
             src = c % e
             for opts in ({}, {"strict": False}):
@@ -104,20 +109,20 @@ def run(ctx, label):
                 try:
                     PageTemplate(src, **opts)
                     # (non-strict mode defers expression errors; other contexts may legitimately make a case valid)
-                    continue
                 except TemplateError:
-                    pass
+                    rejected.append(src)
                 except Exception:   # noqa
-                    pass    # what is raised is C11's subject, not this check's
-                after = _render_probes(PageTemplate, PageTextTemplate)
-                n += len(after)
-                if after != base:
-                    k = next(i for i in range(len(base)) if after[i] != base[i])
-                    ctx.violation("%s: after the template %r was rejected, the template %r renders %r; before it rendered %r "
-                                  "(a compilation failure leaves compiler state behind)" % (
-                                      label, src, (PROBES[k][0] if k < len(PROBES) else "(text template)"), after[k], base[k]),
-                                  dict(kind="isolation", rejected=src, probe=(PROBES[k][0] if k < len(PROBES) else "text"), got=after[k], want=base[k]))
-                    return n
+                    rejected.append(src)    # what is raised is C11's subject, not this check's
+        after = _render_probes(PageTemplate, PageTextTemplate)
+        n += len(after)
+        if after != base:
+            k = next(i for i in range(len(base)) if after[i] != base[i])
+            ctx.violation("%s: after %d templates with a language error inside %r were rejected (e.g. %r), the template %r renders %r; "
+                          "before it rendered %r (a compilation failure leaves compiler state behind)" % (
+                              label, len(rejected), c, rejected[0] if rejected else None,
+                              (PROBES[k][0] if k < len(PROBES) else "(text template)"), after[k], base[k]),
+                          dict(kind="isolation", context=c, probe=(PROBES[k][0] if k < len(PROBES) else "text"), got=after[k], want=base[k]))
+            return n
     for k, pol in enumerate(_polluters(PageTemplate)):
         n += 1
         try:
